@@ -332,8 +332,68 @@ def run_friction(unit):
     yield log.result()
 
 
+# ---- the optional pressure inputs: a stated figure switches the built-in correlation off -------------------------------------------------
+PRESSURE_INPUTS = [('Reservoir Hydrostatic Pressure', 'Phydrostatic', 'usebuiltinhydrostaticpressurecorrelation'),
+                   ('Production Wellhead Pressure', 'ppwellhead', 'usebuiltinppwellheadcorrelation')]
+
+
+def run_pressure_inputs(unit):
+    """real WellBores.read_parameters with the numeric token of the optional pressure line symbolic: when the user states the reservoir
+    hydrostatic pressure / the production wellhead pressure, the pressure calculation must refer to the stated figure, i.e. the switch
+    that selects the built-in correlation is off (and stays on when the line is absent or holds the documented sentinel -1)."""
+    from . import c07
+    P = gx.P
+    for line, attr, flag in PRESSURE_INPUTS:
+        cfg = {'harness': 'pressure-input-lines', 'line': line}
+        log = harness.UnitLog(cfg)
+        obj0, model0, mod = c07._make('geophires_x.WellBores', 'WellBores')
+        lo, hi = float(getattr(obj0, attr).Min), float(getattr(obj0, attr).Max)
+        zv = {'v': z3.Real('v'), 'line present': z3.Bool('line present')}
+
+        def run(v, present, symbolic, line=line, attr=attr, flag=flag):
+            obj, model, _ = c07._make('geophires_x.WellBores', 'WellBores')
+            ins = {}
+            if present:
+                if symbolic:
+                    tok = c07.NumStr('SYMV')
+                    tok.proxy = v
+                else:
+                    tok = repr(float(v))
+                ins[line] = P.ParameterEntry(Name=line, sValue=tok, raw_entry=f'{line}, {tok}')
+            model.InputParameters = ins
+            with contextlib.redirect_stdout(io.StringIO()), shim.shadow(*(c07.param_shadows() if symbolic else [])):
+                obj.read_parameters(model)
+            builtin = getattr(obj, flag)
+            if present:
+                return [(f'"{line}" stated: the built-in correlation is switched off (the stated figure is used)', builtin is False or builtin == False),      # noqa: E712
+                        (f'"{line}" stated: the stated figure is stored', core.near(getattr(obj, attr).value, v, 1e-12))]
+            return [(f'"{line}" absent: the built-in correlation stays on', builtin is True or builtin == True)]      # noqa: E712
+
+        def concrete(inp, only=None, run=run):
+            try:
+                obs = run(float(inp.get('v', (lo + hi) / 2)), bool(inp.get('line present', True)), False)
+            except (ValueError, RuntimeError) as e:
+                return False, {'raised': repr(e)[:120]}
+            bad = [n for n, ok in obs if not ok and (only is None or n == only)]
+            return bool(bad), {'failed': bad}
+
+        def fn(run=run):
+            present = bool(core.symbool('line present'))
+            v = sym('v', lo, hi)
+            return run(v, present, True)
+        for pr in core.explore(fn, max_paths=200, catch=(ValueError, RuntimeError)):
+            log.path(pr)
+            if pr.aborted or pr.error is not None:
+                continue
+            harness.reachable(log, pr.ctx, 1000)
+            for name, cond in pr.value:
+                harness.discharge(log, pr.ctx, name, cond if core.is_sym(cond) else bool(cond), zv, lambda inp, name=name, concrete=concrete: concrete(inp, name), timeout_ms=10000, sample=True)
+        yield log.result()
+
+
 def units(tier, seed):
     us = [{'harness': 'predictors', 'L': L, 'T': T} for (L, T) in PRED[tier]]
+    us.append({'harness': 'pressure-inputs'})
     for (L, T) in NFULL[tier]:
         us.append({'harness': 'full', 'L': L, 'T': T, 'mode': 'impedance', 'flags': {'pumping': True, 'builtin_wellhead': True}})
         for fl in ({'pumping': True, 'builtin_wellhead': True}, {'pumping': True, 'builtin_wellhead': False}, {'pumping': False, 'builtin_wellhead': True}):
@@ -353,6 +413,8 @@ def run_unit(unit):
         yield from run_predictors(unit)
     elif h == 'full':
         yield from run_full(unit)
+    elif h == 'pressure-inputs':
+        yield from run_pressure_inputs(unit)
     else:
         yield from run_friction(unit)
 
